@@ -219,6 +219,31 @@ StatedExamples ==
         /\ (s = <<q, 97, BS, q, 98, q>>) => toks = << <<97, q, 98>> >>
         /\ (s = <<q, 97, c, 98, q>>) => toks = << <<97, c, 98>> >>
         /\ (s = <<97, BS>>) => toks = << <<97, BS>> >>
+(* COUNT classes.  The model cannot enumerate inputs with 65 536 tokens, so large counts are specified by a law that TLC checks *)
+(* on the bounded universe and that the long-count cases (block B repeated k times, k up to 2^16 and beyond) instantiate:        *)
+(* a block that ends with a FREE delimiter (one that the scanner consumes between tokens: not quoted, not escaped) leaves the    *)
+(* scanner in its ground state, so the tokens of B^k are the tokens of B, k times - for every k, no counter or index limit.      *)
+EndsWithFreeDelim(dd, ss) == /\ ss # <<>> /\ IsDelim(dd, ss[Len(ss)])
+                             /\ Split(dd, SubSeq(ss, 1, Len(ss) - 1)) = Split(dd, ss)     \* the last character added nothing to a token
+RECURSIVE Repeated(_, _)
+Repeated(x, k) == IF k = 0 THEN <<>> ELSE x \o Repeated(x, k - 1)
+RepeatLaw == (done /\ EndsWithFreeDelim(d, s)) => \A k \in 2 .. 3 : Split(d, Repeated(s, k)) = Repeated(toks, k)
+\* what the long-count cases are compared with: the number of tokens and the first period (B's own tokens)
+SplitRepeated(dd, bb, k) == LET ts == Split(dd, bb) IN [n |-> k * Len(ts), first |-> ts, periodic |-> TRUE]
+\* the same for the word utilities (white-space grammar): a block that ends with a free blank
+WordTexts(ss) == [i \in 1 .. NumWords(ss) |-> GetWord(i, ss)]
+EndsWithFreeBlank(ss) == ss # <<>> /\ IsSpace(ss[Len(ss)]) /\ WordTexts(SubSeq(ss, 1, Len(ss) - 1)) = WordTexts(ss)
+WordsRepeatLaw == (done /\ d = <<>> /\ EndsWithFreeBlank(s)) =>
+                     LET ss == s \o s  nw == NumWords(s)  wsn == Cardinality(WsStarts(s)) IN
+                     /\ WordTexts(ss) = WordTexts(s) \o WordTexts(s)
+                     /\ \A i \in 1 .. wsn : GetPWord(i + wsn, ss) = (IF GetPWord(i, s) = NIL THEN NIL ELSE GetPWord(i, s) + Len(s))
+\* word i of B^k, for any i up to k * NumWords(B) (the index may be beyond 2^16, 2^31 is never needed: it is reduced by the period)
+WordOfRepeated(bb, i) == GetWord(((i - 1) % NumWords(bb)) + 1, bb)
+PWordOfRepeated(bb, i) == LET wsn == Cardinality(WsStarts(bb))  p == GetPWord(((i - 1) % wsn) + 1, bb) IN
+                          IF p = NIL THEN NIL ELSE p + ((i - 1) \div wsn) * Len(bb)
+\* C: an index beyond the words.  get_word(i) for i >= NumWords + 2 and get_pword(i) for i beyond the white-space words are NIL,
+\* however large i is (2^31, 2^32 + k, 2^63, ULONG_MAX: the class "huge index"); i = 0 and i = NumWords + 1 are not claimed.
+
 \* S: the word utilities are mutually consistent
 WordsConsistent ==
     (done /\ d = <<>>) =>
